@@ -127,7 +127,11 @@ def cmd_check(args):
         try:
             out = mod.run_case(case)
         except build.InfraError as e:
-            print("INFRA: fixed case failed: %s" % e)
+            print("INFRA: fixed case failed: %s" % str(e)[:1500])
+            return 2
+        except Exception as e:          # a harness bug must never look like a violation
+            import traceback
+            print("INFRA: harness exception in fixed case: %s\n%s" % (e, traceback.format_exc()[-1500:]))
             return 2
         fixed_run += 1
         for k, v in out.sub.items():
@@ -211,6 +215,14 @@ def cmd_check(args):
         for m in infra[:5]:
             print("INFRA: " + m[:1200])
         exit_code = 2
+    if infra:
+        try:
+            with open(os.path.join(build.BUILD, "infra.log"), "a") as f:
+                f.write("=== %s %s tier=%s seed=%s\n" % (time.strftime("%F %T"), prop, tier, seed))
+                for m in infra:
+                    f.write(m[:4000] + "\n")
+        except OSError:
+            pass
     wall = round(time.time() - t0, 2)
     ev = {
         "property_id": prop, "tier": tier, "seed": seed, "level": "exploration",
